@@ -6,7 +6,7 @@
    tuple.GetUserTypeFromUser(user), i.e. [is_userset_user].
    Trusted, not modelled: that SQLite evaluates `a = ?`, `a IN (?, …)`, AND / OR as equality,
    membership, conjunction, disjunction; that squirrel renders sq.Eq / sq.Or / an empty sq.Or as
-   read here (an empty sq.Or renders no predicate at all).  Tied to the engine by the
+   read here (squirrel v1.5.4 renders an empty sq.Or as (1=0), i.e. false).  Tied to the engine by the
    correspondence run only.
    Definitions only. *)
 From OFGA Require Import Base.Bytes Store.ReadSpec.
@@ -58,7 +58,7 @@ Definition sql_read_user_tuple (s : store) (k : key) (cs : list bytes) : option 
 
 (* sqlite.go:752 ReadUsersetTuples.  One OR-term per restriction that is a Relation reference
    (user_object_type = T AND user_relation = R) or a Wildcard reference (user_object_type = T AND
-   user_object_id = '*'); any other reference adds no term; an empty OR adds no predicate. *)
+   user_object_id = '*'); any other reference adds no term; the OR of no terms is false. *)
 Definition sq_restr_terms (rs : list restriction) : list (tuple -> bool) :=
   flat_map (fun r =>
     match r with
@@ -67,7 +67,7 @@ Definition sq_restr_terms (rs : list restriction) : list (tuple -> bool) :=
     | RBare _ => []
     end) rs.
 Definition sq_or (terms : list (tuple -> bool)) (t : tuple) : bool :=
-  null terms || existsb (fun p => p t) terms.
+  existsb (fun p => p t) terms.
 
 Definition sql_usersets_where (f : usersets_filter) (t : tuple) : bool :=
   row_user_type_is_userset t && sq_obj (uf_obj f) t && sq_opt_eq (uf_rel f) (t_rel t) &&
